@@ -11,6 +11,7 @@ parameter vector hits no `try_from().unwrap()` (C08); the codec does not hit the
 -/
 import Preflate.Proofs.Spec
 import Preflate.Proofs.HuffTree
+import Preflate.Proofs.ChainBounds
 import Preflate.Props.C08
 import Preflate.Props.C10
 namespace Preflate
@@ -30,6 +31,26 @@ theorem parse_no_fuel (d : List UInt8) : parse d ≠ .error .fuel :=
 theorem tree_index_safe (l : List Nat) (h : validLengths l = true) :
     ∃ t, buildTree l = .ok t ∧ ∀ bs m, decodeSymTree t bs ≠ .error (.panic m) :=
   Proofs.tree_index_safe l h
+
+/-- the abstraction of the hash chains' position arithmetic to (total shift, plaintext position) is
+    what the executable chain model does -/
+theorem policyUpdate_totalShift (p : Params) (plain : Array Nat) (c : Chains.Chain) (pos len : Nat) :
+    (Chains.policyUpdate p plain c pos len).totalShift =
+      Chains.shiftAfter c.totalShift (Chains.updateCalls p pos len) :=
+  Proofs.policyUpdate_totalShift p plain c pos len
+
+/-- position arithmetic kept inside u16 by the periodic reshift: for every parameter vector with a
+    hash chain, every sequence of token lengths 1..258, no `from_absolute` (chain iteration at the
+    token start, both offsets) and no `inc` (insertion loop) ever leaves the u16 range. `_partial`:
+    for the 4 KiB-boundary add policy the estimator's own side condition is assumed (no reference
+    starts in the last three positions of a 4 KiB page; the policy skips the update there and with it
+    the reshift test). Without a hash chain (`hashAlg = 0`) the code never iterates a chain; the
+    abstract statement is false there (`Proofs.chain_positions_in_u16_unrestricted_false`). -/
+theorem chain_positions_in_u16_partial (p : Params) (hh : p.hashAlg ≠ 0) (lens : List Nat)
+    (hl : ∀ l ∈ lens, 1 ≤ l ∧ l ≤ 258)
+    (h4k : p.addPolicy = 3 → Chains.NoRefAt4k 0 lens) :
+    Chains.RunSafe p (-8) 0 lens :=
+  Proofs.chain_positions_in_u16_partial p hh lens hl h4k
 
 variable {H : Type}
 
